@@ -8,9 +8,9 @@ using namespace sim;
 using namespace mpt;
 
 enum { OP_CLONE, OP_RELEASE, OP_APPEND, OP_INSERT, OP_SET, OP_SLICE, OP_RESERVE, OP_REDUCE, OP_CUT, OP_BINSERT, OP_BSET,
-       OP_PRINTF, OP_STRING, OP_FLAGGED, OP_SWRITE };
+       OP_PRINTF, OP_STRING, OP_FLAGGED, OP_SWRITE, OP_DETACH };
 static const char *const OPS[] = {"CLONE", "RELEASE", "APPEND", "INSERT", "SET", "SLICE", "RESERVE", "REDUCE", "CUT", "BINSERT", "BSET",
-                                  "PRINTF", "STRING", "FLAGGED", "SWRITE", 0};
+                                  "PRINTF", "STRING", "FLAGGED", "SWRITE", "DETACH", 0};
 enum { FL_NONE, FL_ALLOC, FL_INIT };
 static const char *const FAULTS[] = {"none", "allocfail", "initfail", 0};
 enum { K_RAW = 0, K_CHAR = 1, K_TRACKED = 2, K_ARRAYS = 3 };
@@ -79,9 +79,9 @@ struct ArraysWorld : World {
 		p.set("faults", (allocf ? 1 : 0) | (initf ? 2 : 0));
 		for (int i = 0; i < nops; ++i) {
 			Op op;
-			static const int raw_ops[] = {OP_CLONE, OP_CLONE, OP_RELEASE, OP_APPEND, OP_APPEND, OP_INSERT, OP_INSERT, OP_SLICE, OP_SLICE, OP_RESERVE, OP_REDUCE, OP_CUT, OP_BINSERT, OP_BSET, OP_SET, OP_FLAGGED, OP_SWRITE};
-			static const int chr_ops[] = {OP_CLONE, OP_CLONE, OP_RELEASE, OP_SET, OP_SET, OP_INSERT, OP_SLICE, OP_RESERVE, OP_REDUCE, OP_CUT, OP_PRINTF, OP_PRINTF, OP_STRING, OP_APPEND, OP_BSET};
-			static const int trk_ops[] = {OP_CLONE, OP_CLONE, OP_RELEASE, OP_SET, OP_SET, OP_INSERT, OP_SLICE, OP_RESERVE, OP_REDUCE, OP_CUT, OP_CUT, OP_BINSERT, OP_BSET, OP_APPEND, OP_FLAGGED};
+			static const int raw_ops[] = {OP_CLONE, OP_CLONE, OP_RELEASE, OP_APPEND, OP_APPEND, OP_INSERT, OP_INSERT, OP_SLICE, OP_SLICE, OP_RESERVE, OP_REDUCE, OP_CUT, OP_BINSERT, OP_BSET, OP_SET, OP_FLAGGED, OP_SWRITE, OP_DETACH};
+			static const int chr_ops[] = {OP_CLONE, OP_CLONE, OP_RELEASE, OP_SET, OP_SET, OP_INSERT, OP_SLICE, OP_RESERVE, OP_REDUCE, OP_CUT, OP_PRINTF, OP_PRINTF, OP_STRING, OP_APPEND, OP_BSET, OP_DETACH};
+			static const int trk_ops[] = {OP_CLONE, OP_CLONE, OP_RELEASE, OP_SET, OP_SET, OP_INSERT, OP_SLICE, OP_RESERVE, OP_REDUCE, OP_CUT, OP_CUT, OP_BINSERT, OP_BSET, OP_APPEND, OP_FLAGGED, OP_DETACH};
 			op.kind = kind == K_RAW ? r.pick(raw_ops) : kind == K_CHAR ? r.pick(chr_ops) : r.pick(trk_ops);
 			op.a = r.below(4) | (r.below(4) << 8);      // handle, second handle
 			op.b = r.below(10) | (r.range(0, 2) << 8) | ((r.chance(1, 8) ? 1 : 0) << 12) | (r.below(10) << 16) | (r.range(0, 2) << 24); // position selector/delta, misalign, length selector/delta
@@ -413,6 +413,21 @@ struct ArraysWorld : World {
 				std::vector<uint32_t> vals = fresh(nu);
 				put((uint8_t *) (b + 1), vals); b->_used = nu * ES;
 				H[h].buf = b; M[h].v = vals; M[h].has = true;
+				break;
+			}
+			case OP_DETACH: {
+				// the buffer interface's own detach(size): private buffer of at least that capacity, content cut to it
+				if (!H[h].buf) break;
+				size_t u = H[h].buf->_used;
+				bool nocopy = (H[h].buf->get_flags() & BufferNoCopy) != 0;
+				buffer *nb; { Sut s(failn); nb = H[h].buf->detach(len); afired = g.fired; }
+				log.ev("DETACH %d size=%zu (used %zu) -> %s", h, len, u, nb ? "ok" : "null");
+				if (!nb) { failed = true; typed_fail = kind == K_TRACKED; if (!afired && !nocopy && !T.fired) fail("refused-valid", "detach(%zu) of a %zu byte buffer refused", len, u); break; }
+				H[h].buf = nb;
+				if (shared(h)) fail("still-shared", "detach returned a buffer that is still shared");
+				if (nb->_size < len) fail("state", "detach(%zu) gives capacity %zu", len, nb->_size);
+				// content is kept, or cut to the requested size when a new buffer had to be made (both keep the statement true)
+				{ size_t keep = (len + ES - 1) / ES; if (m.size() > keep && nb->_used / ES == keep) m.resize(keep); }
 				break;
 			}
 			case OP_SWRITE: {
